@@ -2,7 +2,9 @@
  * public API (plus the exported word g_myth_init_state, read only, to report the state after fini).
  *
  *   c15_proc hist <cycle>,<cycle>,...
- *       cycle = <how><n>[m][x]
+ *       cycle = <how><n>[m][x][+<mod>]...    mod = S<bytes> | C<0/1> | B<int>  (attribute setters: stack size, child first,
+ *                 bind workers)  |  e<K>=<hex> | e<K>-  (setenv / unsetenv before this cycle; K = N S C B L W for
+ *                 MYTH_NUM_WORKERS, _DEF_STKSIZE, _CHILD_FIRST, _BIND_WORKERS, _CPU_LIST, _WORKER_NUM)
  *         how: a = own attribute object: globalattr_init, set_n_workers(n), myth_init_ex(&a)
  *              g = myth_globalattr_set_n_workers(NULL, n) then myth_init()
  *              i = myth_init() with whatever is configured (n ignored)
@@ -31,6 +33,9 @@
 #include <dirent.h>
 #include <sched.h>
 #include <pthread.h>
+#include <time.h>
+#include <stdint.h>
+#include <sys/syscall.h>
 #include <myth/myth.h>
 
 extern volatile int g_myth_init_state;
@@ -53,21 +58,44 @@ static int count_tasks_expect(int expect) {
 }
 static int count_tasks(void) { return count_tasks_once(); }
 
-#define NT 24
-static volatile int t_rank[NT], t_affn[NT], t_aff0[NT];
-static volatile int go_flag;
+/* ---- every worker checks in exactly once: rank <-> OS thread, affinity, position of its thread's stack ----
+   main creates a spawner; the spawner creates nw-1 holders, one at a time.  myth_create with a NULL attribute
+   is child first: the holder starts on the spawner's worker and keeps it (it spins, it never yields) until all
+   nw ranks have checked in, while the spawner, parked in that worker's queue, can only go on after a thief has
+   taken it to ANOTHER worker.  So nw-1 holders sit on nw-1 different workers and the spawner ends on the last one. */
+#define MAXW 1100
+static volatile int g_n, g_seen_cnt, g_dup, g_badrank, g_timedout;
+static volatile int g_rank_tid[MAXW], g_affn[MAXW], g_aff0[MAXW];
+static volatile uintptr_t g_top[MAXW];
+static double now_s(void) { struct timespec ts; clock_gettime(CLOCK_MONOTONIC, &ts); return ts.tv_sec + ts.tv_nsec * 1e-9; }
+static double g_deadline;
 
-static void * probe(void * arg) {
-  long k = (long)arg;
-  cpu_set_t cs; int i;
-  volatile long spin = 0;
-  while (spin < 200000) spin++;           /* give thieves a chance to spread the threads */
-  t_rank[k] = myth_get_worker_num();
-  CPU_ZERO(&cs);
-  sched_getaffinity(0, sizeof cs, &cs);    /* 0 = the calling OS thread = the worker running us */
-  t_affn[k] = CPU_COUNT(&cs);
-  t_aff0[k] = -1;
-  for (i = 0; i < CPU_SETSIZE; i++) if (CPU_ISSET(i, &cs)) { t_aff0[k] = i; break; }
+static __attribute__((noinline)) void checkin(void) {
+  volatile char marker;
+  int r = myth_get_worker_num(), tid = (int)syscall(SYS_gettid);
+  if (r < 0 || r >= g_n || r >= MAXW) { g_badrank = r; return; }
+  if (__sync_bool_compare_and_swap(&g_rank_tid[r], 0, tid)) {
+    cpu_set_t cs; int i;
+    CPU_ZERO(&cs);
+    sched_getaffinity(0, sizeof cs, &cs);    /* 0 = the calling OS thread = the worker running us */
+    g_affn[r] = CPU_COUNT(&cs); g_aff0[r] = -1;
+    for (i = 0; i < CPU_SETSIZE; i++) if (CPU_ISSET(i, &cs)) { g_aff0[r] = i; break; }
+    g_top[r] = (uintptr_t)&marker;
+    __sync_fetch_and_add(&g_seen_cnt, 1);
+  } else if (g_rank_tid[r] != tid) g_dup = 1;   /* two OS threads report the same worker index */
+}
+static void wait_all(void) {
+  long n = 0;
+  while (g_seen_cnt < g_n && !g_timedout) { if ((++n & 0xfffff) == 0 && now_s() > g_deadline) g_timedout = 1; }
+}
+static __attribute__((noinline)) void * holder(void * a) { (void)a; checkin(); wait_all(); return NULL; }
+static void * spawner(void * a) {
+  static myth_thread_t th[MAXW];
+  int i, made = 0;
+  (void)a;
+  for (i = 0; i < g_n - 1 && g_seen_cnt < g_n && !g_timedout; i++) th[made++] = myth_create(holder, NULL);
+  checkin(); wait_all();
+  for (i = 0; i < made; i++) myth_join(th[i], NULL);
   return NULL;
 }
 
@@ -85,40 +113,74 @@ static void * fa(void * a) {
   myth_join(b, NULL);
   return NULL;
 }
+static volatile int cf_flag;
+static void * setflag(void * a) { (void)a; cf_flag = 1; return NULL; }
+
+static void env_mod(const char * m) {   /* e<K>=<hex>  |  e<K>-   with K in N S C B L W */
+  const char * name = m[1] == 'N' ? "MYTH_NUM_WORKERS" : m[1] == 'S' ? "MYTH_DEF_STKSIZE" : m[1] == 'C' ? "MYTH_CHILD_FIRST" :
+                      m[1] == 'B' ? "MYTH_BIND_WORKERS" : m[1] == 'L' ? "MYTH_CPU_LIST" : m[1] == 'W' ? "MYTH_WORKER_NUM" : NULL;
+  if (!name) return;
+  if (m[2] == '-') { unsetenv(name); return; }
+  {
+    const char * h = m + 3; size_t n = strlen(h) / 2, i; char * s = malloc(n + 1);
+    for (i = 0; i < n; i++) { unsigned v; sscanf(h + 2 * i, "%2x", &v); s[i] = (char)v; }
+    s[n] = 0; setenv(name, s, 1); free(s);
+  }
+}
 
 static int do_hist(char * spec) {
-  int k = 0; char * c;
-  for (c = strtok(spec, ","); c; c = strtok(NULL, ","), k++) {
-    char how = c[0]; int n = atoi(c + 1);
-    int mig = strchr(c, 'm') != NULL, nofini = strchr(c, 'x') != NULL;
-    int ret = -9, i, nw, mr = -1;
-    myth_globalattr_t a;
+  int k = 0; char * c, * save1 = NULL;
+  for (c = strtok_r(spec, ",", &save1); c; c = strtok_r(NULL, ",", &save1), k++) {
+    char * parts[32]; int np = 0; char * q, * save2 = NULL;
+    for (q = strtok_r(c, "+", &save2); q && np < 32; q = strtok_r(NULL, "+", &save2)) parts[np++] = q;
+    char how = parts[0][0]; int n = atoi(parts[0] + 1);
+    int mig = strchr(parts[0], 'm') != NULL, nofini = strchr(parts[0], 'x') != NULL;
+    int ret = -9, i, j, nw, mr = -1;
+    myth_globalattr_t a; myth_globalattr_t * ap = (how == 'a') ? &a : NULL;
     char pre[8192]; int pl = 0;
+    for (j = 1; j < np; j++) if (parts[j][0] == 'e') env_mod(parts[j]);
     {
       cpu_set_t cs; CPU_ZERO(&cs); sched_getaffinity(0, sizeof cs, &cs); pre[0] = 0;
       for (i = 0; i < CPU_SETSIZE && pl < 8000; i++) if (CPU_ISSET(i, &cs)) pl += sprintf(pre + pl, "%s%d", pl ? "." : "", i);
     }
-    if (how == 'a') { myth_globalattr_init(&a); myth_globalattr_set_n_workers(&a, n); ret = myth_init_ex(&a); }
-    else if (how == 'g') { myth_globalattr_set_n_workers(NULL, n); ret = myth_init(); }
-    else if (how == 'i') { ret = myth_init(); }
+    if (how == 'a') { myth_globalattr_init(&a); myth_globalattr_set_n_workers(&a, n); }
+    else if (how == 'g') myth_globalattr_set_n_workers(NULL, n);
+    for (j = 1; j < np; j++) {
+      if (parts[j][0] == 'S') myth_globalattr_set_stacksize(ap, (size_t)atol(parts[j] + 1));
+      else if (parts[j][0] == 'C') myth_globalattr_set_child_first(ap, atoi(parts[j] + 1));
+      else if (parts[j][0] == 'B') myth_globalattr_set_bind_workers(ap, atoi(parts[j] + 1));
+    }
+    if (how == 'a') ret = myth_init_ex(&a);
+    else if (how == 'g' || how == 'i') ret = myth_init();
     nw = myth_get_num_workers();
-    printf("cycle %d pre=%s ret=%d nw=%d tasks=%d main=%d ranks=", k, pre, ret, nw, count_tasks_expect(nw), myth_get_worker_num());
+    printf("cycle %d pre=%s ret=%d nw=%d tasks=%d main=%d", k, pre, ret, nw, count_tasks_expect(nw), myth_get_worker_num());
     {
-      myth_thread_t th[NT];
-      for (i = 0; i < NT; i++) { t_rank[i] = -7; th[i] = myth_create(probe, (void *)(long)i); }
-      for (i = 0; i < NT; i++) myth_join(th[i], NULL);
-      for (i = 0; i < NT; i++) printf("%s%d", i ? "," : "", t_rank[i]);
+      myth_thread_t sp; long mind = -1;
+      g_n = nw; g_seen_cnt = 0; g_dup = 0; g_badrank = -1; g_timedout = 0; g_deadline = now_s() + 25.0;
+      for (i = 0; i < MAXW; i++) { g_rank_tid[i] = 0; g_top[i] = 0; }
+      sp = myth_create(spawner, NULL);
+      myth_join(sp, NULL);
+      for (i = 0; i < nw && i < MAXW; i++) for (j = i + 1; j < nw && j < MAXW; j++) if (g_top[i] && g_top[j]) {
+        long d = (long)(g_top[i] > g_top[j] ? g_top[i] - g_top[j] : g_top[j] - g_top[i]);
+        if (mind < 0 || d < mind) mind = d;
+      }
+      printf(" seen=%d dup=%d badrank=%d timedout=%d mindist=%ld", g_seen_cnt, g_dup, g_badrank, g_timedout, mind);
     }
     {
-      size_t stk = 0; int bw = -9;
+      size_t stk = 0; int bw = -9, cf = -9, cfobs = -1; myth_thread_attr_t ta;
       myth_globalattr_get_stacksize(NULL, &stk);
       myth_globalattr_get_bind_workers(NULL, &bw);
-      printf(" stk=%zu bind=%d aff=", stk, bw);
-      for (i = 0; i < NT; i++) {
-        int j, seen = 0;
-        for (j = 0; j < i; j++) if (t_rank[j] == t_rank[i]) seen = 1;
-        if (!seen) printf("%d:%d:%d;", t_rank[i], t_affn[i], t_aff0[i]);
+      myth_globalattr_get_child_first(NULL, &cf);
+      myth_thread_attr_init(&ta);
+      if (nw == 1) {       /* one worker: the order of parent and child is fixed by child_first alone */
+        myth_thread_t t = 0;
+        cf_flag = 0;
+        myth_create_ex(&t, &ta, setflag, NULL);
+        cfobs = cf_flag;
+        myth_join(t, NULL);
       }
+      printf(" stk=%zu bind=%d cf=%d tastk=%zu tacf=%d cfobs=%d aff=", stk, bw, cf, ta.stacksize, ta.child_first, cfobs);
+      for (i = 0; i < nw && i < MAXW; i++) if (g_rank_tid[i]) printf("%d:%d:%d;", i, g_affn[i], g_aff0[i]);
     }
     if (mig && nw >= 2) {
       a_rank = -1; main_joining = 0;
